@@ -8,7 +8,7 @@ use crate::bind::*;
 use crate::engine::{guarded, par_shards, Ctx, Finding, Tally};
 use crate::gen;
 use crate::refmodel::packet::*;
-use crate::refmodel::schema::{self, SCHEMAS};
+use crate::refmodel::schema::{self, Val, SCHEMAS};
 use serde_json::{json, Value};
 use simple_dns::{Packet, CLASS, QCLASS, QTYPE, TYPE};
 use std::convert::TryFrom;
@@ -215,6 +215,47 @@ pub fn check_match(code: u16, shape: u8, class: u16) -> Vec<Finding> {
     let case = json!({"kind": "match", "code": code, "shape": shape, "class": class});
     let mut rec = ref_record(code, shape);
     rec.class = class;
+    check_match_rec(code, class, rec, case)
+}
+
+/// The content variants of a record type whose RDATA carries a value that reads like a type
+/// code: every 16-bit field set to `value`, and (NSEC) a type bitmap with exactly the bit of
+/// `value` set. Matching is decided by the record's own TYPE and CLASS, never by its content.
+pub fn content_variants(code: u16) -> usize {
+    match schema::schema(code) {
+        Some(sch) => gen::default_vals(sch).iter().filter(|v| matches!(v, Val::U16(_) | Val::Windows(_))).count(),
+        None => 0,
+    }
+}
+
+pub fn check_match_content(code: u16, variant: usize, value: u16) -> Vec<Finding> {
+    let case = json!({"kind": "match-content", "code": code, "variant": variant, "value": value});
+    let sch = match schema::schema(code) {
+        Some(s) => s,
+        None => return vec![],
+    };
+    let mut vals = gen::default_vals(sch);
+    let mut k = 0usize;
+    for v in vals.iter_mut() {
+        if matches!(v, Val::U16(_) | Val::Windows(_)) {
+            if k == variant {
+                *v = match v {
+                    Val::U16(_) => Val::U16(value),
+                    _ => {
+                        let mut bm = vec![0u8; (value & 0xff) as usize / 8 + 1];
+                        bm[(value & 0xff) as usize / 8] = 0x80 >> (value & 7);
+                        Val::Windows(vec![((value >> 8) as u8, crate::refmodel::B(bm))])
+                    }
+                };
+            }
+            k += 1;
+        }
+    }
+    let rec = rr("rec.example", RefRData::Typed { code, vals });
+    check_match_rec(code, 1, rec, case)
+}
+
+fn check_match_rec(code: u16, class: u16, rec: RefRR, case: Value) -> Vec<Finding> {
     let mut pk = RefPacket { id: 1, flags: F_QR, ..Default::default() };
     pk.answers.push(rec.clone());
     let wire = pk.encode(0);
@@ -522,6 +563,27 @@ pub fn run(ctx: &Ctx) {
     }
     t.outcome("match");
     ctx.merge(t);
+    {
+        // content independence: a type-like value inside the RDATA never decides a match
+        let mut t = Tally::default();
+        let mut values: Vec<u16> = table.iter().map(|e| e.1).collect();
+        values.extend([0u16, 250, 251, 252, 253, 254, 255, 256, 65535]);
+        let mut m = 0u64;
+        for s in SCHEMAS.iter() {
+            for variant in 0..content_variants(s.code) {
+                for &v in &values {
+                    t.evals += 1;
+                    t.nontrivial += 1;
+                    m += 1;
+                    ctx.violations(check_match_content(s.code, variant, v));
+                }
+            }
+        }
+        t.outcome("match-content");
+        ctx.merge(t);
+        ctx.space("match matrix under type-like RDATA content: every record type with a 16-bit field or a type bitmap x each such field x every value that is an assigned type code or a question-only code (RRSIG type covered, NSEC bitmap bit, MX preference ... set to A, TXT, ANY ...) x {built, parsed} x 44 question types x 6 question classes", m, "complete");
+        ctx.sample(json!({"kind": "match-content", "code": 46, "variant": 0, "value": 16}));
+    }
     ctx.space("match matrix: 46 record type codes x {content, empty RDATA} x 5 classes x {built, parsed} x 44 question types x 6 question classes", n, "complete");
     {
         let codes: Vec<u16> = (0..=65535u16).collect();
@@ -643,6 +705,11 @@ pub fn replay(case: &Value) -> Vec<Finding> {
             case["section"].as_u64().unwrap_or(1) as usize,
         )
         .0,
+        "match-content" => check_match_content(
+            case["code"].as_u64().unwrap_or(46) as u16,
+            case["variant"].as_u64().unwrap_or(0) as usize,
+            case["value"].as_u64().unwrap_or(1) as u16,
+        ),
         "match" => check_match(
             case["code"].as_u64().unwrap_or(0) as u16,
             case["shape"].as_u64().unwrap_or(0) as u8,
